@@ -10,15 +10,15 @@ def nfun(u):
     return len(json.load(open(p))['functions']) if os.path.exists(p) else 0
 def harn(u):
     p = os.path.join(C, u + '.k.rs')
-    if not os.path.exists(p): return (0, 0)
+    if not os.path.exists(p): return (0, 0, 0)
     t = open(p).read()
-    return (len(re.findall(r'//@harness \S+ K ', t)), len(re.findall(r'//@harness \S+ Kb ', t)))
-print('| id | level | Verus units (functions verified) | Kani units (complete K / bounded Kb harnesses) | not decided (listed in evidence) |')
+    return (len(re.findall(r'//@harness \S+ K ', t)), len(re.findall(r'//@harness \S+ Kb ', t)), len(re.findall(r'//@harness \S+ W ', t)))
+print('| id | level | Verus units (functions verified) | Kani units (complete K / bounded Kb / witness-search W harnesses) | not decided (listed in evidence) |')
 print('|----|-------|---|---|---|')
 for pid in sorted(PROPS):
     p = PROPS[pid]
     v = ', '.join('%s (%d)' % (u, nfun(u)) for e, u in p['units'] if e == 'V') or '-'
-    k = ', '.join('%s (%d/%d)' % ((u,) + harn(u)) for e, u in p['units'] if e == 'K') or '-'
+    k = ', '.join('%s (%d/%d/%d)' % ((u,) + harn(u)) for e, u in p['units'] if e == 'K') or '-'
     nd = '; '.join(x.split(' (')[0][:90] for x in p.get('not_decided', [])) or '-'
     print('| %s | %s | %s | %s | %s |' % (pid, p['level'], v, k, nd))
 for pid in sorted(NOT_APPLICABLE):
